@@ -49,7 +49,18 @@ def make(encname, cfg):
     if encname == "dumps":
         return DumpsRoute(cfg)
     if cfg.get("_decoder") == "shared":
-        return impl.make_encoder(encname, decoder=shared_decoder())
+        return _with_qcls(impl.make_encoder(encname, decoder=shared_decoder()))
+    return _with_qcls(impl.make_encoder(encname, **cfg))
+
+
+def _with_qcls(enc):
+    # every encoder under test knows the two hand-made quantity classes (subclass registered first)
+    enc.add_quantity_cls(SubQ, "km", "kmunits")
+    enc.add_quantity_cls(BaseQ, "value", "units")
+    return enc
+
+
+def _unused(encname, cfg):
     return impl.make_encoder(encname, **cfg)
 
 
@@ -92,6 +103,18 @@ def specials():
     ]
 
 
+class BaseQ:
+    """two hand-made quantity classes, one derived from the other, registered with different property names"""
+    def __init__(self, value, units):
+        self.value, self.units = value, units
+
+
+class SubQ(BaseQ):
+    def __init__(self, km, units="km"):           # add_quantity_cls() probes the class with cls(1, "m")
+        BaseQ.__init__(self, km * 1000, "m")
+        self.km, self.kmunits = km, "km"
+
+
 class OneShot:
     """a one-shot iterable (like a generator or a map object) that shows how much of it was used up"""
     def __init__(self, items):
@@ -111,6 +134,8 @@ def snapshot(m):
     """(class, id, items) recursively; values by canonical form."""
     if isinstance(m, OneShot):
         return ("V", ("one-shot", id(m), m.taken))
+    if isinstance(m, BaseQ):
+        return ("V", (type(m).__name__, id(m), repr(sorted(vars(m).items()))))
     if isinstance(m, impl.OrderedMultiDict):
         inv = C.invariant(m)
         return ("C", type(m).__name__, id(m), inv,
@@ -161,6 +186,14 @@ def build(items, as_dict):
         # hand-built values that can be walked only once: an encoder that accepts them must not use them up
         return impl.PVLModule([("s", OneShot([1, 4, 9])), ("g", impl.PVLGroup([("t", OneShot(["a", "b"]))])),
                                ("k", 1)])
+    if items == "QCLS":
+        # values of two registered quantity classes, the subclass first
+        return impl.PVLModule([("range", SubQ(2)), ("dist", BaseQ(7, "m")), ("g", impl.PVLGroup([("r", SubQ(3))]))])
+    if items == "INTKEY":
+        # a key that is not a str, put there with insert(); groups only, so that PDS3 rebuilds the module
+        m = impl.PVLModule([("g", impl.PVLGroup([("a", 1)])), ("h", impl.PVLGroup([("b", 2)])), ("z", 9)])
+        m.insert(1, 5, "five")
+        return m
     if items == "LENGTH":
         # a float subclass that would be written as a quantity only if another
         # encoder's add_quantity_cls() registration leaked
@@ -299,6 +332,8 @@ def run(ctx):
         mods.append((s, False))
     mods.append(("LENGTH", False))
     mods.append(("ITER", False))
+    mods.append(("QCLS", False))
+    mods.append(("INTKEY", False))
     for f in gen.forests(2, ["a"], ["g"], [1]):
         mods.append((f, True))           # plain dict input (unique keys only)
     mods = [m for m in mods if not (m[1] and len({k for k, _ in m[0]}) != len(m[0]))]
@@ -309,7 +344,8 @@ def run(ctx):
     # hermetic cases: one fresh process each, with unrelated activity on other
     # instances (construction, add_quantity_cls, dumps, loads) between the two dumps
     import multiprocessing
-    herm = [("hermetic", (s, False)) for s in specials()] + [("hermetic", ("LENGTH", False)), ("hermetic", ("ITER", False))]
+    herm = [("hermetic", (s, False)) for s in specials()] + [("hermetic", ("LENGTH", False)), ("hermetic", ("ITER", False)), ("hermetic", ("QCLS", False)),
+                                                             ("hermetic", ("INTKEY", False))]
     with multiprocessing.get_context("fork").Pool(16, maxtasksperchild=1) as pool:
         for r in pool.imap_unordered(shard, herm):
             acc.merge(r)
